@@ -128,12 +128,16 @@ def timeout(duration, func, *args, **kwargs):
         # execution, e.g. a threaded import) while it started the target, waited for it or was
         # about to stop it: do not leave the inner thread running. is_alive() cannot be trusted here,
         # an interrupted join() may mark the thread as stopped.
-        if not terminated and target_thread.ident is not None:
+        if not terminated and not target_thread.abandoned:
             target_thread.abandoned = True
-            try:
-                InterruptableThread._async_raise(target_thread.ident, SystemExit)
-            except (ValueError, SystemError):
-                pass
+            # Looked up by identity among the running threads: the bare thread id may already
+            # belong to another thread (ids are reused as soon as a thread has finished)
+            for thread_id, thread in list(threading._active.items()):
+                if thread is target_thread:
+                    try:
+                        InterruptableThread._async_raise(thread_id, SystemExit)
+                    except (ValueError, SystemError):
+                        pass
         raise
 
     if timed_out:
